@@ -86,6 +86,8 @@ Adopt(L) ==
 \* differences between what the specification computed (record C) and the log
 Diff(C, L) ==
        Flag(C.rib # L.rib, "rib") \cup Flag(C.pend # L.pend, "pend")
+  \* a held operation is gone although the specification still holds it: it will never be answered (C06, C02)
+  \cup Flag(DOMAIN C.pend \ DOMAIN L.pend # {}, "heldLost")
   \cup Flag(C.refNH # L.refNH \/ C.refNHG # L.refNHG, "refs")
   \cup Flag(C.mirror # L.mirror, "mirror")
 
